@@ -668,6 +668,15 @@ func c05(c *Ctx) {
 	}
 	add(x86.MOVQ(operand.NewParamAddr("x", 0), reg.RCX))
 	add(x86.MOVQ(operand.NewStackAddr(16), reg.RCX))
+	// symbolic references: static and global data, with displacement and index; argument and stack
+	// references with an index register
+	add(x86.MOVQ(operand.NewDataAddr(operand.NewStaticSymbol("tbl"), 0), reg.RCX))
+	add(x86.MOVQ(operand.NewDataAddr(operand.NewStaticSymbol("tbl"), 24), reg.RCX))
+	add(x86.LEAQ(operand.NewDataAddr(operand.NewStaticSymbol("tbl"), 8), reg.RDX))
+	add(x86.MOVQ(operand.NewDataAddr(operand.Symbol{Name: "runtime·x"}, 0), reg.RCX))
+	add(x86.MOVQ(operand.NewStackAddr(8).Idx(reg.RCX, 8), reg.RDX))
+	add(x86.MOVL(operand.NewStackAddr(0).Idx(reg.R9, 4), reg.EDX))
+	add(x86.MOVQ(reg.RDX, operand.NewStackAddr(16).Idx(reg.RSI, 1)))
 	add(x86.LEAQ(operand.Mem{Base: reg.RDX, Index: reg.RDX, Scale: 8}, reg.RCX))
 	for k := mark; k < len(insts); k++ {
 		insts[k].Class = "addressing"
